@@ -58,6 +58,21 @@ def gen_case(rng):
             f = ("b", "or", ("b", "and", s, other), ("b", "implies", s, ("u", "not", s)))
         else:
             f = ("b", shape, s, s) if rng.random() < 0.5 else ("b", shape, s, ("b", "and", other, s))
+        if rng.random() < 0.35:
+            # near-duplicate text: the second copy differs in one constant by a tiny amount (one ulp, 1e-9, 1e-7): operators
+            # are keyed by the printed node name, which must tell the two copies apart
+            consts = [x for x in F.subformulas(s) if x[0] == "c"]
+            if consts:
+                import math
+                c0 = rng.choice(consts)[1]
+                c1 = rng.choice([math.nextafter(c0, 10.0), c0 + 1e-9, c0 + 1e-7, c0 + 4e-7])
+
+                def swap(x):
+                    if x[0] == "c" and x[1] == c0:
+                        return ("c", c1)
+                    return F.rebuild(x, [swap(k) for k in F.children(x)])
+                f = ("b", rng.choice(["and", "or"]), s, swap(s))
+                return {"stream": "near-duplicate-text", "f": f, "n": n, "asserts": None, "tiny": True}
         return {"stream": "duplicate-text", "f": f, "n": n, "asserts": None}
     # multi-assertion: names p0, p1 ... each may reference earlier names
     k = rng.randint(1, 3)
